@@ -44,7 +44,11 @@ func (s *c11pgVisitor) Visit(node pgsql.SyntaxNode) { s.event("V", node) }
 func (s *c11pgVisitor) Exit(node pgsql.SyntaxNode)  { s.event("X", node) }
 
 func c11pgWalk(root pgsql.SyntaxNode, script c11Script) (res string, log []string, errText string) {
-	vis := &c11pgVisitor{VisitorHandler: walk.NewCancelableErrorHandler(), script: script}
+	return c11pgWalkWith(walk.NewCancelableErrorHandler(), root, script)
+}
+
+func c11pgWalkWith(h walk.VisitorHandler, root pgsql.SyntaxNode, script c11Script) (res string, log []string, errText string) {
+	vis := &c11pgVisitor{VisitorHandler: h, script: script}
 	defer func() {
 		if p := recover(); p != nil {
 			res, log, errText = "panic", vis.log, fmt.Sprint(p)
@@ -115,6 +119,9 @@ func (c11pgSuite) Gen(rng *Rng, tier string, w *bufio.Writer, stats *Stats) {
 			for _, sc := range c11ScheduleScripts(rng, "pg", len(log), 4, false) {
 				scripts = append(scripts, sc.String())
 			}
+			for _, sc := range c11SeqScripts(rng, "pg", len(log)) {
+				scripts = append(scripts, sc.String())
+			}
 			stats.Inc("translated")
 		}
 		n++
@@ -162,6 +169,24 @@ func (r *c11pgRunner) Step(t []string, raw string) string {
 	}
 	for _, script := range scripts {
 		sc := script.String()
+		if script.next != nil {
+			h := walk.NewCancelableErrorHandler()
+			var rootA pgsql.SyntaxNode = stmt
+			if script.leaf {
+				rootA = pgsql.Identifier("a")
+			}
+			join := func(l []string) string {
+				if len(l) == 0 {
+					return "-"
+				}
+				return strings.Join(l, ",")
+			}
+			ra, la, _ := c11pgWalkWith(h, rootA, script)
+			rb, lb, _ := c11pgWalkWith(h, stmt, *script.next)
+			r.stats.Inc("pg.walk.seq")
+			fmt.Fprintf(&b, " | W %s %s>%s %s>%s", sc, ra, rb, join(la), join(lb))
+			continue
+		}
 		res, log, _ := c11pgWalk(stmt, script)
 		r.stats.Inc("pg.walk." + res)
 		txt := "-"
